@@ -3,7 +3,8 @@
 (* of operation sequences for replay on the real pool.                                           *)
 EXTENDS Mempool, Json
 CONSTANTS ExportOn, MaxOps,   \* MaxOps bounds the length of a behaviour
-          SampleMod          \* 1/SampleMod of the explored transitions are exported (the runner stratifies by kind)
+          SampleMod,         \* 1/SampleMod of the frequent kinds of transitions are exported (the runner stratifies by kind)
+          ImportantMod       \* 1/ImportantMod of the others
 
 VARIABLE hist               \* the operations so far (not in the VIEW)
 mvars == <<vars, hist>>
@@ -42,7 +43,7 @@ Kind ==
 (* the frequent kinds (plain submissions, foreign blocks that change nothing) are sampled, the others always exported *)
 Important == \/ lab'.ev \in {"Build", "StopSync"}
              \/ (lab'.ev = "Block" /\ (Moved # {} \/ Gone # {} \/ st'.ep # st.ep))
-Export == IF ExportOn /\ (Important \/ RandomElement(1..SampleMod) = 1)
+Export == IF ExportOn /\ RandomElement(1..(IF Important THEN ImportantMod ELSE SampleMod)) = 1
           THEN PrintT(ToJson([kind |-> Kind, ns |-> NS, gcap |-> GasCap,
                                 cfg |-> [el |-> EL, pl |-> PL, qs |-> QS, es |-> ES, cb |-> CB, ric |-> RIC], ops |-> hist']))
           ELSE TRUE
